@@ -98,7 +98,7 @@ def inputs(ctx):
     # spans that only REFER to styles (DFXP style="id", lists of ids, a style built on another;
     # SAMI class="name" with the rule in the style sheet)
     for k, nodes in enumerate(base if not ctx.quick else base[::4]):
-        for src, modes in (("DFXP", ("single", "list", "chain", "chain-rev")), ("SAMI", ("single", "id"))):
+        for src, modes in (("DFXP", ("single", "list", "chain", "chain-rev")), ("SAMI", ("single", "id", "two"))):
             for mode in modes:
                 for r in (["DFXP"], ["SAMI"], ["WebVTT"]):
                     if ctx.quick and (k + len(mode) + len(r[0])) % 3:
@@ -265,6 +265,9 @@ def _ref_doc_from_nodes(nodes, kind, mode):
             elif kind == "DFXP":
                 ref = " ".join("s_" + x for x in key) if mode == "list" else "s_" + key
                 out.append('<span style="%s">' % ref)
+            elif mode == "two":
+                # two classes, the first one carries the rule (the reader keeps the first)
+                out.append('<span class="s_%s loud">' % key)
             elif mode == "id":
                 # the rule hangs on the element's id; its classes say nothing about italics / bold / underline
                 out.append('<span class="tint loud" id="s_%s">' % key)
@@ -293,7 +296,7 @@ def _ref_doc_from_nodes(nodes, kind, mode):
         return render.dfxp_doc([("en-US", [('begin="00:00:01.000" end="00:00:02.000"', body)])],
                                head="<styling>%s</styling>" % "".join(defs))
     css = "\n".join("%ss_%s {%s}" % ("#" if mode == "id" else ".", c, " ".join("%s: %s;" % COMBO[x][2:] for x in c)) for c in combos)
-    if mode == "id":
+    if mode in ("id", "two"):
         css += "\n.tint {color: yellow;}\n.loud {font-size: 120%;}"
     doc = render.sami_doc([("ENCC", "en-US")], [("1000", [("ENCC", body)]), ("2000", [("ENCC", "&nbsp;")])])
     return doc.replace("-->", css + "\n-->", 1)
@@ -332,8 +335,10 @@ def _doc_from_nodes(nodes, kind):
                 out.append('<span style="font-style:%s;font-weight:%s;text-decoration:%s;">' % (
                     "italic" if i else "normal", "bold" if b else "normal", "underline" if u else "none"))
             else:
+                # "off" for underline is spelled noUnderline in TTML ("none" is valid too): alternate
                 out.append('<span tts:fontStyle="%s" tts:fontWeight="%s" tts:textDecoration="%s">' % (
-                    "italic" if i else "normal", "bold" if b else "normal", "underline" if u else "none"))
+                    "italic" if i else "normal", "bold" if b else "normal",
+                    "underline" if u else ("noUnderline" if len(out) % 2 else "none")))
         else:
             out.append("</span>")
     body = "".join(out)
